@@ -1039,6 +1039,15 @@ def _signzero_probes():
             "x-x": ["subtract", x, x], "0*x": ["multiply", c(0), x], "x*0": ["multiply", x, c(0)], "0/x": ["divide", c(0), x], "-0": ["negative", c(0)],
             "abs(-x)": ["absolute", ["negative", x]], "x+x": ["add", x, x], "+x": ["positive", x], "sqrt(x*x)": ["sqrt", ["multiply", x, x]],
             "min(x,x)": ["minimum", x, x], "max(x,0)": ["maximum", x, c(0)], "select(x<0,x,0)": ["select", ["lt", x, c(0)], x, c(0)],
+            # rules found by the thorough tier (2026-09-25): (x == y) ? x : y -> y and (x != y) ? x : y -> x pick the other zero
+            "select(x==y,x,y)": ["select", ["eq", x, sym_spec("y", ty)], x, sym_spec("y", ty)],
+            "select(x!=y,x,y)": ["select", ["ne", x, sym_spec("y", ty)], x, sym_spec("y", ty)],
+            "select(y==x,x,y)": ["select", ["eq", sym_spec("y", ty), x], x, sym_spec("y", ty)],
+            "x-(-0.0)": ["subtract", x, cf(-0.0)], "(-0.0)-x": ["subtract", cf(-0.0), x], "(-0.0)+x": ["add", cf(-0.0), x],
+            "sign(-0.0)": ["sign", cf(-0.0)], "sqrt(-0.0)": ["sqrt", cf(-0.0)], "min(0.0,-0.0)": ["minimum", cf(0.0), cf(-0.0)],
+            "max(-0.0,0.0)": ["maximum", cf(-0.0), cf(0.0)], "(-0.0)*1": ["multiply", cf(-0.0), c(1)], "0.0*(-1)": ["multiply", cf(0.0), c(-1)],
+            "0.0+(-0.0)": ["add", cf(0.0), cf(-0.0)], "(-0.0)-0.0": ["subtract", cf(-0.0), cf(0.0)], "abs(-0.0)": ["absolute", cf(-0.0)],
+            "-(0.0)": ["negative", cf(0.0)], "log1p(-0.0)": ["log1p", cf(-0.0)], "x*1.0": ["multiply", x, cf(1.0)],
         }
         for en, e in E.items():
             W = {"atan2(E,-1)": ["atan2", e, c(-1)], "copysign(1,E)": ["copysign", c(1), e], "1/E": ["divide", c(1), e], "sign(E)": ["sign", e]}
